@@ -330,6 +330,8 @@ def run(ctx):
     pq.close()
     if len(outs) != len(cmds):
         raise RuntimeError("pqref answered %d of %d commands" % (len(outs), len(cmds)))
+    from harness import dsedit2_lib as L
+    ctx.extra["extraction_vs_kernel_examples"] = L.extract_agreement(ctx, "C09", cmds, outs)
     for res, mo in zip(results, outs):
         h = by_id[res["id"]]
         ctx.count("partition_columns", len(h["pcols"]))
